@@ -404,7 +404,9 @@ let oracle (kind : string) (body : sexp list) (impl : string) : string option =
       else if List.mem FUnsub sts then Some "ok"
       else if not (peak_ok lim O out) then Some "reject:C05_limit"
       else if not (wf (downstream out)) then Some "reject:C05_downstream_wf"
-      else if not (subs_increasing O out) then Some "reject:inner observables subscribed out of outer order"
+      else if not (subs_consecutive O out) then Some "reject:C05 inner observables subscribed out of outer order, or one of them twice"
+      else if not (items_exact_ok lim sts out) then Some "reject:C05 an item of an inner observable lost, duplicated, out of its order, or delivered for an inner observable that is not subscribed"
+      else if lim = Some (S O) && not (concat_exclusive_ok out) then Some "reject:C05 concat: an item outside its inner observable's turn"
       else if not (completion_ok lim (List.map fstim_of (args (List.nth body 3))) out)
         then Some "reject:completion not exactly when the outer and all inner observables have completed, or a waiting inner observable not started although a slot is free"
       else Some "ok"
